@@ -42,6 +42,7 @@ fn main() {
         "C13" => (ex, Box::new(|r| checks::c13::run(r))),
         "C16" => (mc, Box::new(|r| checks::c16::run(r))),
         "C17" => (mc, Box::new(|r| checks::c17::run(r))),
+        "C18" => (mc, Box::new(|r| checks::c18::run(r))),
         "C20" => (ex, Box::new(|r| checks::c20::run(r))),
         _ => usage(),
     };
